@@ -311,6 +311,15 @@ impl Prop for C11Prop {
             if r != c && normalize_gensyms(&r) == normalize_gensyms(&c) {
                 return Some("evaluator-com-leaks-let-bound-names");
             }
+            // run and cldb compile one after the other, at different values of the fresh-name
+            // counter: the cl23+ CSE binding order follows the fresh names (C05 finding)
+            {
+                let src0 = v.case.get("source").and_then(|s| s.as_str()).unwrap_or("");
+                let modern_cse = ["*standard-cl-23*", "*standard-cl-23.1*", "*standard-cl-24*"].iter().any(|g| src0.contains(g));
+                if modern_cse && crate::props::c01::source_repeats_a_call(src0) && crate::props::c05::same_behaviour_on_generic_arguments(&r, &c) {
+                    return Some("cl23-cse-binding-order-follows-the-fresh-names");
+                }
+            }
             return None;
         }
         let a = sut::consensus_deserialize(&hex::decode(det.get("library_hex")?.as_str()?).ok()?).ok()?;
